@@ -5,10 +5,10 @@ import json
 CLAIMED = {
  # id: (level, technique, text, note, design_ref)
  "C01": ("exploration", "deterministic simulation: seeded operation histories against R-STACK + twin per-symbol loop, iterator-error injection",
-         "Seeded search over operation histories (encode/decode, all batch/reverse/fallible-iterator forms, export+re-import through four backend kinds, clone, temporary decoders of six kinds) on every (Word,State) of the menu with extreme TableModels and library models; oracles: LIFO equality with the most recent un-popped encode of the same model, exported words restored at every pop, batch forms equal the per-symbol loop, state invariant, re-import never refused. Sampling, not proof.",
+         "Seeded search over operation histories (encode/decode, all batch/reverse/fallible-iterator forms, export+re-import through six backend kinds incl. tiny bounded cursors whose writes fail and Reverse<Cursor>, clone, temporary decoders of six kinds) on every (Word,State) of the menu with extreme TableModels and library models; oracles: LIFO equality with the most recent un-popped encode of the same model, exported words restored at every pop, batch forms equal the per-symbol loop, state invariant, re-import never refused. Sampling, not proof.",
          "Trusted base: harness TableModel/FnModel adapters, the trace executor, R-STACK bookkeeping. Models are assumed well-formed (C03 is not decided here).", "DESIGN 3 C01"),
  "C02": ("exploration", "deterministic simulation: producer -> store -> consumer world in its fault-free configuration, workload steered into carry states by one-step look-ahead and adversarial table synthesis",
-         "Messages (length 0..2000) over every (Word,State) of the menu with per-symbol precision changes are encoded into six sink kinds, sealed, and decoded through eight source kinds; oracles: FIFO equality, empty message => no words, maybe_exhausted after the last symbol, batch forms equal the loop. The generator uses the public encoder state to steer lower/range into Inverted situations (num_inverted>=3), carry / no-carry resolutions, seal-while-inverted and range == threshold.",
+         "Messages (length 0..2000) over every (Word,State) of the menu with per-symbol precision changes are encoded into six sink kinds, sealed, and decoded through eight source kinds, optionally taking the decoder apart (into_raw_parts) and reassembling it (from_raw_parts) between symbols; oracles: FIFO equality, empty message => no words, maybe_exhausted after the last symbol, batch forms equal the loop. The generator uses the public encoder state to steer lower/range into Inverted situations (num_inverted>=3), carry / no-carry resolutions, seal-while-inverted and range == threshold.",
          "This is the fault-free configuration of the channel whose fault-injecting configurations are C09/C10/C11; TableModel trusted; sampling.", "DESIGN 3 C02"),
  "C10": ("exploration", "deterministic simulation with fault injection at the data seam: garbage, truncated, bit-flipped, extended and head-cut streams, wrong model sequences, read errors, fed to the consumers of all three stream coders",
          "Decoders of the ANS coder (from_compressed / from_binary over Vec, slice cursor, fallible iterator), the range decoder (owned, borrowed, iterator source) and the chain coder (both constructors) are built over arbitrary or corrupted words and decode with arbitrary well-formed models, with emphasis on lookup tables and lazily quantised models; oracles: no panic, no abort (worker child process on the hardened build), every symbol inside the support of the model it was decoded with, ANS never errs, range only InvalidData, chain only OutOfCompressedData, backend errors only where a read fault was injected; decoding continues after an error; no decode may hang (quantized models over narrow signed/unsigned symbol types whose support touches the ends of the type are part of the zoo).",
@@ -32,8 +32,8 @@ CLAIMED = {
          "Inspections (get_compressed, get_binary, iter_compressed, temporary decoders, clone, size queries) inserted at seeded points; each view must equal clone().into_compressed() taken at that moment, must leave state()/bulk() untouched, and the whole run must produce the same decoded symbols and final words as the twin without inspections.",
          "Trusted base: executor; equality is on public observables only.", "DESIGN 3 C08"),
  "C09": ("fault_enumeration", "deterministic simulation with fault injection: out-of-support symbols (incl. aliasing values) and backend write failures at seeded points of encode histories",
-         "Out-of-support symbols (just outside, far outside, s + j*2^k aliasing candidates) injected at arbitrary points must return ImpossibleSymbol and leave the coder bit-identical; for the ANS coder a failing/full backend write must leave the coder intact and the history must continue to agree with the fault-free reference.",
-         "Fault points are sampled per run (seeded), not exhaustively enumerated per history; Store is a simulator stub behind the public WriteWords/ReadWords traits.", "DESIGN 3 C09"),
+         "At EVERY encode position of every generated history (ANS, range and chain coders), on clones of the coder: a fixed catalogue of out-of-support symbols for the model about to be used (support min-1, max+1, i32::MIN/MAX, s +/- 2^8, s + 2^16, s + 2^32, s + 2^PRECISION, s + 2^ProbabilityBits) must return ImpossibleSymbol and leave the coder bit-identical; for the ANS coder additionally the very next backend write fails (Store) or the sink has no room (bounded cursor): the coder must be unchanged and the symbols encoded before must still decode. On top of that, seeded BadSym / write-fault / capacity operations inside the histories themselves, Huffman out-of-alphabet symbols (incl. top-bit-set values) on the bit coders, and continuation of the history after each fault.",
+         "Enumeration is over (history position) x (fault catalogue) for sampled histories; the histories themselves are sampled. Store is a simulator stub behind the public WriteWords/ReadWords traits.", "DESIGN 3 C09"),
  "C12": ("exploration", "deterministic simulation: invariant monitor on encode-only runs with a write-counting view of the backend",
          "After every encode of an encode-only history from the empty coder: bits <= sum(info)+sum(eps)+(S+2W) with the analytically derived eps, words <= n + const, at most one backend write per encode_symbol. Long runs (up to 2000 symbols) so that a per-symbol leak overwhelms the constant.",
          "Float summation slack 1e-6*n+1e-6 bits; information content computed from the model's own fixed-point probabilities.", "DESIGN 3 C12"),
@@ -47,7 +47,7 @@ CLAIMED = {
          "StackCoder and QueueEncoder/QueueDecoder over five word types and three backends, with Huffman (integer and float weights) and Exp-Golomb (u8..u64, symbols incl. 0, 2^k-1, 2^k, MAX-1, MAX) codebooks, pre-filled queue sinks; oracles: len()/is_empty() exact at every step, pops return pushes in reverse, queue reads in order followed only by zero padding, decode_symbol equals the same codebook run over R-BITS, export + re-import preserves len and content at every fill level of the last word, maybe_exhausted after the last bit.",
          "Codeword bits are obtained from the codebooks themselves (their correctness is C15, not decided here); R-BITS is a Vec<bool>.", "DESIGN 3 C16"),
  "C17": ("exploration", "deterministic simulation with fault injection (full sinks, out-of-range seeks, read/write errors) of the backend seam against the R-BACKEND reference",
-         "Histories over write, extend_from_iter, stack reads, queue reads, remaining, space_left/is_full, maybe_exhausted/maybe_full, pos/seek (back to recorded and to arbitrary incl. out-of-range positions), in-place reversal (both directions), views, mutable views, cloned on Vec, SmallVec, Cursor<Vec>, Cursor<Box<[_]>>, Reverse<Cursor<..>>, FallibleIteratorReadWords with error items, callback writers with failing callbacks; every result is predicted by a Vec+position model; temporal clauses (no read succeeds after end-of-data, 'false' answers of maybe_* are promises).",
+         "Histories over write, extend_from_iter, stack reads, queue reads, remaining, space_left/is_full, maybe_exhausted/maybe_full, pos/seek (back to recorded and to arbitrary incl. out-of-range positions), in-place reversal (both directions), views, mutable views, cloned on Vec, SmallVec, Cursor<Vec>, Cursor<Box<[_]>>, Reverse<Cursor<..>>, FallibleIteratorReadWords with error items and over non-fused iterators (which the adapter must fuse), callback writers with failing callbacks; every result is predicted by a Vec+position model; temporal clauses (no read succeeds after end-of-data; maybe_exhausted() == false promises that the next read is not end-of-data - maybe_full() promises nothing by its documentation and is not asserted).",
          "Model positions are kept in the un-reversed orientation; reversal must be observationally a no-op for reads and writes.", "DESIGN 3 C17"),
  "C20": ("exploration", "deterministic simulation on a hardened build (std unsafe-precondition checks + overflow checks compiled into the library's generic code) in worker child processes, plus the same worker under Miri in the thorough tier; fault kinds: buffers shrunk through buf_mut(), poisoned float parameters, misbehaving user Distribution, out-of-range quantiles",
          "Runs every explorer (ans, range, bits, backend, chain, skew, garbage) with its own workload bias plus the poison world (Cursor::buf_mut shrink/replace then stack reads / reversed writes / ANS coding over the cursor; NaN/inf/negative/denormal/huge float tables and normalisations into every float constructor followed by use of the model; a Distribution whose CDF is NaN / decreasing / constant / out of range at one call; quantile_function with quantile >= 2^P; valid-but-extreme float tables). Verdict rule: a UB-check abort, fatal signal or Miri UB report is always a violation; an overflow panic is a violation for in-contract operations; ordinary panics and Err values are the allowed failure form.",
